@@ -266,26 +266,38 @@ def parseHexField (j : J) (k : List Nat) : Option Bytes :=
   | some s => hexDec s
   | none => none
 
+/-- which `from_json` the code exhibits: `legacy` is the snapshot 27d20bf (`version_tuple` panics on a
+malformed version, no range checks); `bounded` is the code after the C12 repairs
+(`try_version_tuple` ⇒ error; `1 ≤ chunk_len ≤ 0x10000`; chunk index ≤ `0xffffff`) -/
+inductive JsonChk where
+  | legacy | bounded
+deriving DecidableEq, Repr
+
+def maxChunkLen : Nat := 0x10000
+def maxChunkIndex : Nat := 0xffffff
+
 /-- the loop over `chunks` entries: every entry must add a new key -/
-def parseChunks : List (List Nat × J) → List (Nat × Bytes) → Option (List (Nat × Bytes))
+def parseChunks (jc : JsonChk) : List (List Nat × J) → List (Nat × Bytes) → Option (List (Nat × Bytes))
   | [], acc => some acc
   | (k, v) :: r, acc =>
     match parseDec k, v.asStr with
     | some num, some hs =>
+      if jc = .bounded ∧ maxChunkIndex < num then none
+      else
       match hexDec hs with
       | some dat =>
         if (getChunk acc num).isSome then none            -- `chunks.len()==prev_len`
-        else parseChunks r (insertChunk acc num dat)
+        else parseChunks jc r (insertChunk acc num dat)
       | none => none
     | _, _ => none
 
 /-- `FileImage::from_json` given the parsed tree -/
-def fimgFromJson (j : J) : Res FImg :=
+def fimgFromJson (jc : JsonChk) (j : J) : Res FImg :=
   match (j.get kFimgVersion).asStr with
   | none => .err
   | some ver =>
     match versionTuple ver with
-    | none => .panic
+    | none => if jc = .bounded then .err else .panic
     | some vt =>
       if verLt vt (2,0,0) then .err
       else
@@ -295,10 +307,11 @@ def fimgFromJson (j : J) : Res FImg :=
               parseHexField j kCreated, parseHexField j kModified, parseHexField j kVersion,
               parseHexField j kMinVersion with
         | some fs, some cl, some typ, some aux, some eof, some acc, some cr, some md, some vs, some mv =>
+          if jc = .bounded ∧ (cl < 1 ∨ maxChunkLen < cl) then .err else
           match (if new then parseHexField j kAccessed else some []),
                 (if new then (j.get kFullPath).asStr else some []) with
           | some accd, some path =>
-            match parseChunks (j.get kChunks).entries [] with
+            match parseChunks jc (j.get kChunks).entries [] with
             | some cs => .ok { fimgVersion := ver, fileSystem := fs, chunkLen := cl, eof := eof, fsType := typ,
                                aux := aux, access := acc, accessed := accd, created := cr, modified := md,
                                version := vs, minVersion := mv, fullPath := path, chunks := cs }
